@@ -644,7 +644,8 @@ pub fn replay_file(path: &str) -> i32 {
             return 2;
         }
     };
-    let r = run_isolated(&prop, &rep.plan, TapeSpec::Replay(rep.tape.clone()), false, 80);
+    let trace_max: usize = std::env::var("VERIF_TRACE_MAX").ok().and_then(|s| s.parse().ok()).unwrap_or(80);
+    let r = run_isolated(&prop, &rep.plan, TapeSpec::Replay(rep.tape.clone()), false, trace_max);
     if let Some(why) = &r.crashed {
         eprintln!("HARNESS ERROR: the execution died: {}", why);
         return 2;
